@@ -12,3 +12,17 @@ func VerifSetMaxZipBlobSize(sto blobserver.Storage, n int) bool {
 	}
 	return ok
 }
+
+// VerifCheckLargeIntegrity runs the store's own start-up integrity check (the
+// one newFromConfig runs, fatal there unless keepGoing is set) and returns
+// its complaint, or "" when the meta index accounts for every zip in large.
+func VerifCheckLargeIntegrity(sto blobserver.Storage) string {
+	s, ok := sto.(*storage)
+	if !ok {
+		return ""
+	}
+	if _, err := s.checkLargeIntegrity(); err != nil {
+		return err.Error()
+	}
+	return ""
+}
